@@ -568,7 +568,27 @@ class Selected(PyObj):
         self.base, self.sel = base, sel
 
 
-def np_where1(ctx, cond):
+def np_where3(c, cond, a, b):
+    """np.where(cond, a, b): pointwise selection (values and NaN flags)"""
+    if not isinstance(cond, SArr):
+        raise Undecided("np.where condition")
+    cs = cond.snapshot()
+
+    def val(x, idx):
+        if isinstance(x, SArr):
+            return x.at(idx), x.isnan(idx)
+        if isinstance(x, NaNType):
+            return 0, True
+        return x, False
+    A = a.snapshot() if isinstance(a, SArr) else a
+    B = b.snapshot() if isinstance(b, SArr) else b
+    return SArr(uid("where"), cs.shape_, lambda idx: ite(cs.at(idx), val(A, idx)[0], val(B, idx)[0]),
+                lambda idx: Or(And(cs.at(idx), val(A, idx)[1]), And(Not(cs.at(idx)), val(B, idx)[1])))
+
+
+def np_where1(ctx, cond, *ab):
+    if len(ab) == 2:
+        return np_where3(ctx, cond, ab[0], ab[1])
     if isinstance(cond, SArr) and len(cond.shape_) == 1:
         return (WhereSel(cond.snapshot()),)
     raise Undecided("np.where on an unmodelled argument")
